@@ -117,31 +117,7 @@ def check(model: Model, run: Run) -> None:
 
     # the shared cached collection must not be handed to a consumer that mutates it
     run.rule('C19.R1b', 'the attribute collection kept in AttributeCollection.cached is never one a consumer mutates: every key that UpdateCollection._parse_payload pops from the returned collection is excluded by the caching guard', floor=1)
-    un = model.func(AC + '.unpack')
-    pp = model.func(UC + '._parse_payload')
-    run.analysed(un)
-    run.analysed(pp)
-    popped = set()
-    ppl = Loc(model, pp)
-    got = set(ppl.from_call('AttributeCollection.unpack'))
-    for c in walk_no_nested(pp.node):
-        if isinstance(c, ast.Call) and isinstance(c.func, ast.Attribute) and c.func.attr in ('pop', 'remove', '__delitem__') and dotted(c.func.value) in got and c.args:
-            v = folder.fold(c.args[0], pp.module)
-            popped.add(v if v is not UNKNOWN else norm(c.args[0]))
-    store = [n for n in walk_no_nested(un.node) if isinstance(n, ast.Assign) and dotted(n.targets[0]) == 'cls.cached' and not (isinstance(n.value, ast.Constant) and n.value.value is None)]
-    excluded = set()
-    if store:
-        for f_ in facts(Loc(model, un), store[0]):
-            m_ = re.fullmatch(r'([\w.]+) not in .+', f_)
-            if m_:
-                e_ = ast.parse(m_.group(1), mode='eval').body
-                v = folder.fold(e_, un.module, un.cls)
-                excluded.add(v if v is not UNKNOWN else m_.group(1))
-    missing = popped - excluded
-    run.check(bool(store) and bool(popped) and not missing, un.qualname, 'caching guard excludes %s; consumers pop %s' % (sorted(map(str, excluded)), sorted(map(str, popped))), un.loc(store[0]) if store else un.loc(), 'attribute code(s) %s are popped from the returned collection by _parse_payload but a collection holding them can be cached: the first decode strips the shared object and the next identical block loses those routes' % sorted(map(str, missing)))
-    # also: the marker short-cut returns before caching
-    taw = [n for n in walk_no_nested(un.node) if isinstance(n, ast.If) and 'INTERNAL_TREAT_AS_WITHDRAW' in norm(n.test)]
-    run.check(bool(taw) and store and taw[0].lineno < store[0].lineno and isinstance(taw[0].body[-1], ast.Return), un.qualname, 'treat-as-withdraw collections are not cached', un.loc(), 'a malformed block must not be served from the cache')
+    cache_guard_rule(model, run, folder)
 
     # ------------------------------------------------------------------ R2 no peer-driven rewrite of class state
     run.rule('C19.R2', 'no decode-reachable function rewrites a class attribute of a class that is registered under two or more keys (earlier objects of that class would change meaning)', floor=2)
@@ -199,6 +175,36 @@ def check(model: Model, run: Run) -> None:
             run.violation(q, 'writes session state while decoding: %s' % norm(bad[0])[:60], fi.loc(bad[0]), 'decoding a message must not change the negotiated parameters later messages are decoded with')
         else:
             run.ok(short(q))
+
+
+def cache_guard_rule(model: Model, run: Run, folder: Folder) -> None:
+    """shared by C19.R1b and C02.R7"""
+    un = model.func(AC + '.unpack')
+    pp = model.func(UC + '._parse_payload')
+    run.analysed(un)
+    run.analysed(pp)
+    popped = set()
+    ppl = Loc(model, pp)
+    got = set(ppl.from_call('AttributeCollection.unpack'))
+    for c in walk_no_nested(pp.node):
+        if isinstance(c, ast.Call) and isinstance(c.func, ast.Attribute) and c.func.attr in ('pop', 'remove', '__delitem__') and dotted(c.func.value) in got and c.args:
+            v = folder.fold(c.args[0], pp.module)
+            popped.add(v if v is not UNKNOWN else norm(c.args[0]))
+    store = [n for n in walk_no_nested(un.node) if isinstance(n, ast.Assign) and dotted(n.targets[0]) == 'cls.cached' and not (isinstance(n.value, ast.Constant) and n.value.value is None)]
+    excluded = set()
+    if store:
+        for f_ in facts(Loc(model, un), store[0]):
+            m_ = re.fullmatch(r'([\w.]+) not in .+', f_)
+            if m_:
+                e_ = ast.parse(m_.group(1), mode='eval').body
+                v = folder.fold(e_, un.module, un.cls)
+                excluded.add(v if v is not UNKNOWN else m_.group(1))
+    missing = popped - excluded
+    run.check(bool(store) and bool(popped) and not missing, un.qualname, 'caching guard excludes %s; consumers pop %s' % (sorted(map(str, excluded)), sorted(map(str, popped))), un.loc(store[0]) if store else un.loc(), 'attribute code(s) %s are popped from the returned collection by _parse_payload but a collection holding them can be cached: the first decode strips the shared object and the next identical block loses those routes' % sorted(map(str, missing)))
+    # also: the marker short-cut returns before caching
+    taw = [n for n in walk_no_nested(un.node) if isinstance(n, ast.If) and 'INTERNAL_TREAT_AS_WITHDRAW' in norm(n.test)]
+    run.check(bool(taw) and store and taw[0].lineno < store[0].lineno and isinstance(taw[0].body[-1], ast.Return), un.qualname, 'treat-as-withdraw collections are not cached', un.loc(), 'a malformed block must not be served from the cache')
+
 
 
 def _fold_cls(folder: Folder, expr: ast.AST, fi: FuncInfo, written: set[str] = frozenset()):
